@@ -78,3 +78,6 @@ mod utils;
 #[cfg(feature = "ram_bundle")]
 pub mod ram_bundle;
 pub mod vlq;
+
+#[cfg(feature = "verif_hooks")]
+pub mod verif_hooks;
